@@ -65,7 +65,8 @@ def gen_random(rng: random.Random, cfgs: list[str]) -> dict:
              "victim": rng.randrange(n)}  # fmt: skip
         )
 
-    return {"cfg": rng.choice(cfgs), "fast": rng.random() < 0.4, "actors": actors,
+    return {"cfg": rng.choice(cfgs), "fast": rng.random() < 0.4, "outside": rng.random() < 0.25,
+            "actors": actors,
             "agents": agents}  # fmt: skip
 
 
@@ -103,10 +104,16 @@ def execute(case: dict) -> dict:
     def window(name: str) -> None:
         out["windows"][name] = out["windows"].get(name, 0) + 1
 
+    # created while no event loop runs: AnyIO hands out an adapter that builds the backend
+    # lock on first use - it has to behave exactly the same
+    pre = anyio.Lock(fast_acquire=case["fast"]) if case.get("outside") else None
+    if pre is not None:
+        window("lock_created_outside_the_loop:" + type(pre).__name__)
+
     async def main() -> None:
         h = Harness()
         h.freeze_on_abort(viol)
-        lock = anyio.Lock(fast_acquire=case["fast"])
+        lock = pre if pre is not None else anyio.Lock(fast_acquire=case["fast"])
         holders: set = set()
         inprog: dict = {}
         box.update(h=h, lock=lock)
